@@ -1218,6 +1218,10 @@ func extractLiteralASN(s string) (uint16, bool) {
 	if idx <= 0 {
 		return 0, false
 	}
+	// the colon must be a literal separator: "^6500:?1" also accepts "65001:..."
+	if rest := s[start+idx+1:]; rest != "" && strings.IndexByte("?*{", rest[0]) >= 0 {
+		return 0, false
+	}
 	asn, ok := parseCanonicalUint(s[start:start+idx], 16)
 	return uint16(asn), ok
 }
